@@ -28,10 +28,12 @@ WITHOUT=$(run_demo)
 git stash pop -q
 cd /verif
 git -C /repo apply $OUT/patch.diff || { echo "patch does not apply to /repo"; exit 1; }
+cp evidence/$ID.json /tmp/evidence-$ID.bak 2>/dev/null
 START=$(date +%s)
 ./check $ID > $OUT/check.log 2>&1; RC=$?
 END=$(date +%s)
 git -C /repo checkout -- .
+cp /tmp/evidence-$ID.bak evidence/$ID.json 2>/dev/null   # evidence must describe the unchanged tree
 VIOL=$(grep -c "^VIOLATION" $OUT/check.log)
 CMD="$CMD" python3 - <<PY
 import json
